@@ -8,6 +8,7 @@ codec in {num, enum:<Enum>, loc, str, strval, switch, cuwp, ai, wavdur}
 Output: lean/RichchkModel/Generated/TrigTable.lean and build/trigtable.json
 """
 import ast
+import re
 import glob
 import json
 import os
@@ -178,12 +179,13 @@ class Side:
     def check_wav_duration(self):
         r = find_method(self.mod, self.cls, "_determine_wav_duration")
         src = ast.unparse(r[2])
-        for need in ["if rich_action.duration_ms is None:", "if not rich_chk_encode_context.wav_metadata_lookup:", "raise ValueError",
-                     "get_metadata_by_wav_path(rich_action.path_to_wav_in_mpq)", "if not maybe_metadata:", "return maybe_metadata.duration_ms",
-                     "return rich_action.duration_ms"]:
-            if need not in src:
-                raise TranslatorGap(f"_determine_wav_duration lacks `{need}`")
-
+        for need in [r"if (\w+)\.duration_ms is None:", r"if not \w+\.wav_metadata_lookup:", r"raise ValueError",
+                     r"get_metadata_by_wav_path\(\w+\.path_to_wav_in_mpq\)", r"if not (\w+):\s+[^\n]*\n(?:[^\n]*\n)*?\s*return \1\.duration_ms|if not (\w+):",
+                     r"return \w+\.duration_ms"]:
+            if not re.search(need, src):
+                raise TranslatorGap(f"_determine_wav_duration lacks the shape `{need}`")
+        if len(re.findall(r"return \w+\.duration_ms", src)) < 2:
+            raise TranslatorGap("_determine_wav_duration: expected a return of the explicit duration and one of the metadata's duration")
 
 def model_id(mod, cls, kind):
     """(model class name, enum member, number)"""
